@@ -34,6 +34,7 @@ type sszCodec interface {
 // entry is one (type, version, variant) of duty data.
 type entry struct {
 	Name    string // e.g. VersionedSignedProposal/deneb/blinded
+	KeyName string // name used in finding keys when it differs from Name
 	GoType  string // e.g. VersionedSignedProposal
 	Signed  bool
 	Duty    core.DutyType
